@@ -11,7 +11,7 @@ FIXPROP = {'71d213c': 'C15', 'f30e791': 'C05', 'a925cfb': 'C10', 'c3abf56': 'C11
 def prop_of(name):
     if name.startswith('fixrevert-'):
         return FIXPROP[name.split('-')[1]]
-    return name.split('-')[0]
+    return name.split('-')[0][-3:]
 def one(name, pids, tier):
     d = os.path.join(ROOT, 'seeded', name)
     scratch = tempfile.mkdtemp(prefix='seed_')
